@@ -3,7 +3,7 @@ import vcore
 
 ID = "C17"
 LEVEL = "proof"
-_T = ["pageRound_spec", "layout_spec", "recover_base", "malloc_enomem_iff", "allocarray_spec", "protections", "free_calls"]
+_T = ["pageRound_spec", "layout_spec", "accepted_never_wraps", "old_guard_insufficient", "recover_base", "malloc_enomem_iff", "allocarray_spec", "protections", "free_calls"]
 THEOREMS = vcore.theorems_in("SodiumModel/Properties/C17.lean", _T, "Sodium.C17")
 IMPORTS = ["SodiumModel.Properties.C17"] if THEOREMS else ["SodiumModel.Model.Alloc"]
 RULE = ("layout: every size 0..3 pages+1 (logged mmap/mprotect/mlock/munmap arguments relative to the mapping base, user pointer offset, 0xdb fill, "
